@@ -20,6 +20,9 @@ CLAIMED = {
  "C05": dict(level="exploration", engine="E1-world", technique="stateful PBT with virtual clock and out-of-band revocation; invariant over (record, revocation time, store)",
    text="Generated histories that revoke latest/older IKs and SKs under live sessions and other processes' rotations; after the bound (1 interval IK, 2 intervals SK, 0 without caching) a record must name an unrevoked stored IK under an unrevoked stored SK, and records under revoked keys must stay decryptable.",
    note=W+"; demanded only when a later creation stamp was available throughout the last interval", ref="3/C05"),
+ "C08": dict(level="exploration", engine="E3-delay", technique="preemption-bounded schedule sampling: rapid-drawn delay plans over statement-level yield points + systematic single-preemption enumeration, with a use-after-close tracking SecretFactory as oracle",
+   text="Concurrent encrypt/decrypt/session churn on one factory with tiny and asynchronous bounded caches under drawn delay plans (1-3 pauses at (site, k-th visit)); in addition every reachable yield site is taken as the single preemption point for tight configurations. Every operation must succeed with the right bytes and no secret may be read after close.",
+   note="schedules are sampled; a violation needing more than 3 coordinated preemptions may be missed", ref="3/C08"),
  "C09": dict(level="exploration", engine="E1-world+E2-faults", technique="stateful PBT with a tracking SecretFactory (resource-accounting invariants) plus fault-position enumeration (store/KMS/AEAD/allocator)",
    text="Every secret the SDK allocates is accounted for: DRK closed before Encrypt returns, nothing live after a no-cache call, per-(process,key) live copies bounded by the caches entitled to hold them and by capacity, zero live / closed once / never read after close once everything is closed; the same under every single injected fault position.",
    note=W+"; tracker mirrors the securememory contract; cross-checked with real memguard + InUseCounter", ref="3/C09"),
@@ -41,9 +44,15 @@ CLAIMED = {
  "C13": dict(level="exploration", engine="metastore-model", technique="model-based stateful PBT against a reference key table, over semantic fakes of database/sql and DynamoDB (v1+v2 adapters)",
    text="Random Store/Load/LoadLatest sequences over overlapping ids and timestamps on the memory, SQL (3 dialects) and both DynamoDB metastores; the fakes interpret the SQL / expressions, enforce the documented schema and serve plain reads eventually consistently, so ordering, uniqueness, consistency flags and field fidelity are checked as behaviour.",
    note="trusted base: the fakes' reading of SQL / DynamoDB semantics; no real database", ref="3/C13"),
+ "C14": dict(level="exploration", engine="E4-gate", technique="systematic schedule enumeration (stateless DFS over a metastore-call gate scheduler) over rapid-drawn race scenarios; convergence + store immutability + differential oracle",
+   text="2-3 processes race key creation from cold / SK-only / expired / revoked (noticed and unnoticed) states; every process blocks before each metastore call until granted, so schedules are sequences of choices: all interleavings of 2 processes x 1 encrypt are enumerated per scenario (x2 encrypts in thorough), 3 processes are sampled. Every record must decrypt in the reference, a fresh process and every other racer; no row may change; unsaved keys must be discarded.",
+   note="granularity = metastore calls of processes sharing only the store; scenarios are sampled, their 2-process schedule spaces are complete", ref="3/C14"),
  "C15": dict(level="exploration", engine="cache-model", technique="model-based testing: exhaustive short operation sequences + long rapid sequences + rapid.MakeFuzz under go fuzz, against a reference bounded map with policy models",
    text="All sequences up to length 4 (6 in thorough) over Set/Get/Delete x 3 keys, clock advance and Close for every policy, capacities 1-3 (and TinyLFU at 99/100/101/200) with and without expiry, plus long random sequences at capacities on both sides of every internal threshold, synchronous and asynchronous; presence is owned by the callbacks, victims checked for LRU/LFU/SLRU.",
    note="Delete callbacks 0 or 1, sliding expiry tolerated, TinyLFU victims and capacity 0 not asserted", ref="3/C15"),
+ "C16": dict(level="exploration", engine="E3-delay", technique="stateful PBT (sequential) + preemption-bounded schedule sampling (concurrent) with a tracking SecretFactory; oracle: held sessions work, same-session sharing, exactly-once teardown",
+   text="Session cache of size 1-3 with every policy and short expiry: generated histories and concurrent workloads hold sessions across evictions and expiry, use them afterwards, and finally close everything; delay plans (random and every reachable site of session_cache.go / cache.go as single preemption) vary the schedule.",
+   note="schedules are sampled; which session a bounded policy evicts is not asserted", ref="3/C16"),
  "C17": dict(level="fault_enumeration", engine="aws-kms-fakes", technique="exhaustive enumeration of regional failure subsets over fake regional KMS endpoints; oracle from the endpoints' call logs (truth table)",
    text="For 1-3 regions (4 in thorough), every preferred region, every subset failing GenerateDataKey / Encrypt at wrap and Decrypt / wrong-bytes at unwrap, wrapper and unwrapper each in {v1, v2}: success conditions, envelope contents, preferred-first order, at-most-once and stop-at-first-success are checked from the call log.",
    note="fake regional KMS = AES-GCM under per-region master keys; order among non-preferred regions not asserted", ref="3/C17"),
@@ -82,6 +91,10 @@ def main():
 NA = {}
 FIX_COMMITS = []
 ENGINES = [
+ dict(name="E3-delay", path="harness/kit/sched.go", serves_properties=["C08","C11","C16"], kind_free_text="delay-plan engine over statement-level yield points injected by the overlay (preemption-bounded schedule sampling), sites profiled from the same workload"),
+ dict(name="E4-gate", path="harness/c14", serves_properties=["C14"], kind_free_text="gate scheduler at metastore-call granularity with stateless DFS enumeration of schedules"),
+ dict(name="fakes", path="harness/fakes", serves_properties=["C06","C10","C13","C17","C18"], kind_free_text="semantic fakes: DynamoDB (v1+v2 adapters), database/sql driver interpreting a SQL subset, regional AWS KMS endpoints"),
+ dict(name="refimpl", path="harness/kit/refimpl.go", serves_properties=["C01","C02","C14","C18"], kind_free_text="independent reference implementation of the documented formats and key hierarchy"),
  dict(name="E2-faults", path="harness/world/faults.go", serves_properties=["C02","C09","C10"], kind_free_text="re-executable pinned scenarios with fault plans addressed by call index (store/KMS/AEAD/allocator), positions enumerated"),
  dict(name="E1-world", path="harness/world", serves_properties=["C01","C03","C04","C05","C09","C10","C20"], kind_free_text="rapid state machine over the real SDK with virtual clock, spy store/KMS/AEAD, tracking secret factory, reference decryptor"),
 ]
